@@ -284,6 +284,12 @@ func init() {
 		if clean != (e == nil) || (e == nil && (!bytes.Equal(vm, o.released) || !bytes.Equal(k.ToKID(), o.pk))) || (e != nil && vm != nil) {
 			fs = append(fs, Failure{Kind: "oracle", Key: "verify-forms-disagree", Desc: fmt.Sprintf("stream: %.120s ; Verify: %d bytes, %v", got, len(vm), e)})
 		}
+		if f := armoredFormFailure("verify", input, saltpack.MessageTypeAttachedSignature, e, vm, func(txt string) ([]byte, bool, error) {
+			k2, m2, _, e2 := saltpack.Dearmor62Verify(vd, txt, ring)
+			return m2, k2 != nil, e2
+		}); f != nil {
+			fs = append(fs, *f)
+		}
 		if w, ok := c.A["want"]; ok {
 			if o.hdrErr != nil || o.end != io.EOF || !bytes.Equal(o.released, unhx(w)) || hx(o.pk) != c.A["want_pk"] {
 				fs = append(fs, Failure{Kind: "oracle", Key: "verify-rejects-spec-message", Desc: fmt.Sprintf("a message produced by the reference signer (%s) was not accepted as expected: %.200s", c.A["knobs"], got)})
@@ -327,6 +333,12 @@ func init() {
 		}
 		if strings.Contains(got, "PANIC") {
 			fs = append(fs, Failure{Kind: "oracle", Key: "verify-detached-panic", Desc: got[:min(300, len(got))]})
+		}
+		if f := armoredFormFailure("verify-detached", sig, saltpack.MessageTypeDetachedSignature, e, nil, func(txt string) ([]byte, bool, error) {
+			k2, _, e2 := saltpack.Dearmor62VerifyDetached(vd, msg, txt, ring)
+			return nil, k2 != nil && e2 != nil, e2
+		}); f != nil && !strings.Contains(got, "PANIC") {
+			fs = append(fs, *f)
 		}
 		if rk, ok := c.A["must_reject"]; ok && e == nil {
 			fs = append(fs, Failure{Kind: "oracle", Key: rk, Desc: fmt.Sprintf("%s: accepted", c.A["why"])})
